@@ -47,6 +47,27 @@ def model_check(ctx, sc):
         raise core.Machinery('CacheWrap model run failed: %s %s\n%s' % (r.violated, r.errors[:2], r.out[-1500:]))
 
 
+def apalache_inductive(ctx, sc):
+    """unbounded sizes: IndInv of spec/CacheWrapInt.tla is inductive (Apalache, SMT)"""
+    import subprocess
+    import time
+    spec = os.path.join(tlc.SPEC, 'CacheWrapInt.tla')
+    for name, args in (('Init => IndInv', ['--init=Init', '--length=0']),
+                       ('IndInv /\\ Next => IndInv\'', ['--init=IndInit', '--length=1'])):
+        t0 = time.time()
+        try:
+            p = subprocess.run(['apalache-mc', 'check', '--cinit=ConstInit', '--inv=IndInv', '--out-dir=' + sc.file('apalache')] + args + [spec],
+                               cwd=sc.path, stdout=subprocess.PIPE, stderr=subprocess.STDOUT, text=True, timeout=900)
+            out = p.stdout
+        except subprocess.TimeoutExpired:
+            raise core.Machinery('apalache timed out on ' + name)
+        if 'The outcome is: NoError' not in out:
+            raise core.Machinery('apalache did not discharge %s:\n%s' % (name, out[-1500:]))
+        ctx.tlc_runs.append({'run': 'apalache: ' + name + ' (CacheWrapInt, unbounded Size/Buf/read sizes)', 'wall_s': round(time.time() - t0, 1),
+                             'outcome': 'NoError'})
+    ctx.extra['apalache'] = 'IndInv of CacheWrapInt.tla is inductive for every stream size, buffer size and read size'
+
+
 # --------------------------------------------------------------------------- wrapper histories
 OPS = [(1, 1), (1, 2), (1, 5), (2, 1), (2, 5), (3, 1), (3, 2), (4, 0)]       # (op, n units)
 
@@ -326,6 +347,7 @@ def kinds_part(ctx, sc):
 def run(ctx):
     with tlc.Scratch('c11') as sc:
         model_check(ctx, sc)
+        apalache_inductive(ctx, sc)
         wrapper_part(ctx, sc)
         kinds_part(ctx, sc)
     ctx.rule = ('(a) every operation history of length 5 (quick) / 6 + 20000 random of length 12 (thorough) over '
